@@ -26,7 +26,7 @@ package batch
 // table, so that no later caller can append to the argument list Many was given - and closes doneCh on every path
 // (joiners only wait for it). A joiner never runs Many and never closes anything.
 //@ func Func.Invoke
-//@   requires f != nil
+//@   assume f != nil          // a method call on a nil *Func panics before anything else
 //@   keeps batchContext, batchGroup, Func, map[funcShard]*batchGroup
 //@   ghost nmany int
 //@   ghost ndone int
